@@ -18,7 +18,8 @@ RULE = (
     '<prefix>+<symbol> pair: must parse to the dictionary entry if it is one, else must raise. Non-trivial: >=2 '
     'terms with a prefix and an exponent != 1, or a rejection string whose suffix is a valid atom, or an accepted '
     "prefixed atom. Later rounds: negative numeric factors ('-2*km', 'm/-4'); a coverage-guided unit over the "
-    'same strategy. Round 7: signed denominators (km-1:-2). Distinct = distinct case JSON.'
+    'same strategy. Round 7: signed denominators (km-1:-2). Round 9: one fractional power repeated 22-60 times '
+    '(strategy long_product). Distinct = distinct case JSON.'
 )
 ASSUMPTIONS = [
     "table rows (factor, dimension vector, admissible prefixes) are the specification",
